@@ -9,7 +9,7 @@ PROPS_MODULE = "AslProps.C07"
 DRIVER = "c07"
 RULE = ("cases = groups of Xml::decode calls (`dec`) on generated documents (comments, PIs, DOCTYPE with nested <>, XML "
         "declaration, named/decimal/hex references incl. out-of-range ones, both quote kinds, blanks inside tags), on their "
-        "descents (`desc`: `e = e.child(0)` down the first-child chain on the only handle), survivors (`sub`: one node of the decoded tree kept after the tree is released: its parent() must be null, its subtree intact), "
+        "detachments (`mut`: a child removed with remove(int)/remove(Xml)/clear()/put(), then everything else released), descents (`desc`: `e = e.child(0)` down the first-child chain on the only handle), survivors (`sub`: one node of the decoded tree kept after the tree is released: its parent() must be null, its subtree intact), "
         "mutations (every/random truncation, byte insert/delete/replace, extra/missing/mismatched end tags, </>, unterminated "
         "references), on token soups, random bytes and exhaustive short strings over markup alphabets; plus Xml::encode (`enc`) "
         "and decode(encode(t)) (`rt`) on generated DOM trees up to depth 12 (compact and indented) with & < > quotes, blanks "
@@ -327,6 +327,9 @@ def gen(rng, tier):
             m = mutate(rng, m if rng.random() < 0.5 else d)
             c.append(dec(m))
         # a handle to one node kept after the decoded tree is released (k-th node in document order)
+        # a child detached from a node of the decoded tree by a DOM mutator, then everything else released
+        c.append("mut %s %d %d %s" % (hexs(d), rng.randrange(0, 12), rng.randrange(0, 4), rng.choice(["remove", "removee", "clear", "put"])))
+        c.append("mut %s %d %d %s" % (hexs(d), 0, rng.randrange(0, 4), rng.choice(["remove", "clear", "put"])))
         c.append("desc " + hexs(d))   # descend the first-child chain by assignment to the only handle
         c.append("desc " + hexs(m))
         c.append("sub %s %d" % (hexs(d), rng.randrange(0, 40)))
@@ -666,6 +669,15 @@ def reference(line):
     try:
         if t[0] == "dec":
             return ref_dec(unhex(t[1]))
+        if t[0] == "mut":
+            tr = ref_tree(unhex(t[1]))
+            if tr is None:
+                return None
+            pre = preorder_nodes(tr)
+            p_ = pre[int(t[2]) % len(pre)]
+            if p_[0] == "T" or not p_[3]:
+                return "skip"
+            return "M+" + dump_root(p_[3][int(t[3]) % len(p_[3])])   # detached at once, and still detached after the release
         if t[0] == "desc":
             tr = ref_tree(unhex(t[1]))
             if tr is None:
@@ -703,6 +715,9 @@ def reference(line):
 def oracle(case, impl, model, crash):
     """property oracle judged on the implementation's behaviour alone (DESIGN 1.3)"""
     if crash:
+        if case and all(l.startswith("mut ") for l in case):
+            return True, ("parent() of an element taken out of a decoded tree by remove/clear/put is a memory error once its former "
+                          "parent is released: %s" % crash)
         if case and all(l.startswith("desc ") for l in case):
             return True, ("walking down a decoded tree with `e = e.child(0)` on the only handle (or `e = e`) is a memory error: %s" % crash)
         if case and all(l.startswith("sub ") for l in case):
@@ -714,6 +729,8 @@ def oracle(case, impl, model, crash):
         return True, "Xml::decode / encode did not terminate normally (memory error or abort): %s" % crash
     outs = [o for o in impl if o != "case"]
     for l, o in zip(case, outs):
+        if o.startswith("M!") or o.startswith("M+R!"):
+            return True, "an element removed from its parent (remove/clear/put) still reports that parent (M!/R! in the output of: %s)" % l[:80]
         if o.startswith("R!"):
             return True, "the returned element's own parent() is not a null object (R! in the dump of: %s)" % l[:80]
         if "!" in o:
@@ -756,6 +773,12 @@ def simplify_line(line):
             cands = [c for c in cands if text_only_sole(c) or not sole]   # stay inside the indented clause's side condition
         for c in cands:
             yield "%s %s %s" % (t[0], t[1], " ".join(tokens(c)))
+        return
+    if t[0] == "mut" and len(t) == 5:
+        for k in range(0, min(int(t[2]), 4)):
+            yield "mut %s %d 0 %s" % (t[1], k, t[4])
+        for l in simplify_line("dec " + t[1]):
+            yield "mut %s %s %s %s" % (l.split()[1], t[2], t[3], t[4])
         return
     if t[0] == "desc" and len(t) == 2:
         for l in simplify_line("dec " + t[1]):
@@ -815,7 +838,7 @@ LEVEL_TEXT = ("Proved in Lean 4 about the executable transcription of Xml::decod
               "(2b) xml_root_parent_null — the returned element's own parent is null (code after fix 5247de7; before it parent() read freed "
               "memory); (2c) xml_survivor_links — a node of the returned tree kept while the tree is released has a null parent and intact "
               "links below it (code after fix c581d77; before it parent() read freed memory; the handle assignment `e = e.child(0)` that "
-              "produces such survivors acquires before it releases since fix e5e901a — xml_descend_links covers the node it ends on); "
+              "produces such survivors acquires before it releases since fix e5e901a — xml_descend_links covers the node it ends on; a child taken out by remove/clear/put is orphaned at once since fix dcdfbd7 — xml_detached_child_links); "
               "(2d) xml_text_roundtrip — text() of "
               "decode(encode(t)) is the first-child-chain text of normalize(t) (text() is observed on every decoded result by K, incl. a "
               "300000-deep chain: recursive before fix f16a8e9); (3) xml_roundtrip_compact — for EVERY element tree (any depth/fan-out) whose tag and attribute names pass the decoder's own "
